@@ -41,7 +41,7 @@ theorem prewrite_exit_has_no_io_set (o : Oracle) (fs : FS) (json backup : Bool) 
     revert hne hph
     show (runSet o fs json backup t oc nc rc).exit ≠ 0 → (runSet o fs json backup t oc nc rc).phase.beforeSave = true →
       ∀ s ∈ (runSet o fs json backup t oc nc rc).trace, s.writes = none
-    rcases o with ⟨a1, a2, a3, a4, a5, a6, a7, a8⟩
+    rcases o with ⟨a1, a2, a3, a4, a5, a6, a7, a8, a9⟩
     cases a1 <;> cases a2 <;> cases a3 <;> cases a4 <;> cases a5 <;> cases a6 <;> cases a8 <;> cases json <;>
       simp [runSet, Phase.beforeSave, Step.writes]
   exact ⟨key, run_readOnly _ _ key⟩
@@ -54,7 +54,7 @@ theorem set_nonzero_exit_phase (o : Oracle) (fs : FS) (json backup : Bool) (t : 
   show (runSet o fs json backup t oc nc rc).exit ≠ 0 →
     (runSet o fs json backup t oc nc rc).phase.beforeSave = true ∨
     ((runSet o fs json backup t oc nc rc).exit = 3 ∧ (runSet o fs json backup t oc nc rc).phase = .save ∧ json = false)
-  rcases o with ⟨a1, a2, a3, a4, a5, a6, a7, a8⟩
+  rcases o with ⟨a1, a2, a3, a4, a5, a6, a7, a8, a9⟩
   cases a1 <;> cases a2 <;> cases a3 <;> cases a4 <;> cases a5 <;> cases a6 <;> cases a8 <;> cases json <;>
     simp [runSet, Phase.beforeSave]
 
@@ -71,7 +71,7 @@ theorem prewrite_exit_has_no_io_merge (o : Oracle) (fs : FS) (dest : Dest) (ins 
     show (runMerge o fs dest ins mergeExit oc nc).exit ≠ 0 →
       (runMerge o fs dest ins mergeExit oc nc).phase.beforeSave = true ∧
       ∀ s ∈ (runMerge o fs dest ins mergeExit oc nc).trace, s.writes = none
-    rcases o with ⟨a1, a2, a3, a4, a5, a6, a7, a8⟩
+    rcases o with ⟨a1, a2, a3, a4, a5, a6, a7, a8, a9⟩
     cases dest with
     | stdout =>
       cases a1 <;> cases a2 <;> cases a3 <;> cases a6 <;> cases a7 <;>
@@ -110,17 +110,17 @@ theorem output_never_replaces_existing (o : Oracle) (fs : FS) (out : Str) (ins :
   intro r
   have hne : r.exit ≠ 0 := by
     show (runMerge o fs (.output out) ins me oc nc).exit ≠ 0
-    rcases o with ⟨a1, a2, a3, a4, a5, a6, a7, a8⟩
+    rcases o with ⟨a1, a2, a3, a4, a5, a6, a7, a8, a9⟩
     cases a1 <;> cases a2 <;> simp [runMerge, mergeValidateSteps, hx]
   have h := (prewrite_exit_has_no_io_merge o fs (.output out) ins me oc nc hne).2.2
   exact ⟨hne, h, by rw [h]; exact hx⟩
 
 /-- After a successful `--backup` save the backup holds the pre-image and the target the new
 text, for every writer and whatever the `.bak` path held before. -/
-theorem backup_is_preimage (fs : FS) (w : Writer) (t : Str) (orig : Bytes) (oc nc : List Bytes)
+theorem backup_is_preimage (fs : FS) (saw : Bool) (w : Writer) (t : Str) (orig : Bytes) (oc nc : List Bytes)
     (_ht : fs t = some orig) (hoc : oc.flatten = orig) :
-    run fs (saveSteps fs w true t oc nc) (bakOf t) = some orig ∧
-    run fs (saveSteps fs w true t oc nc) t = some nc.flatten := by
+    run fs (saveSteps saw w true t oc nc) (bakOf t) = some orig ∧
+    run fs (saveSteps saw w true t oc nc) t = some nc.flatten := by
   simp only [saveSteps, if_true]
   rw [run_append]
   constructor
@@ -134,24 +134,24 @@ theorem backup_is_preimage (fs : FS) (w : Writer) (t : Str) (orig : Bytes) (oc n
 /-- C17, last sentence.  `runFault fs steps k cl`: steps `0 … k-1` succeed, step `k` fails, then
 the unwinding performs `cl` (flushes to / closes of files open for writing at that moment).
 No bound on `k`, on the sizes or on the number of chunks. -/
-theorem single_fault_keeps_original (fs : FS) (w : Writer) (t : Str) (orig : Bytes)
+theorem single_fault_keeps_original (fs : FS) (saw : Bool) (w : Writer) (t : Str) (orig : Bytes)
     (oc nc : List Bytes) (ht : fs t = some orig) (hoc : oc.flatten = orig)
     (k : Nat) (cl : List Step)
-    (hcl : Cleanup ((saveSteps fs w true t oc nc).take k) cl) :
-    runFault fs (saveSteps fs w true t oc nc) k cl t = some orig ∨
-    runFault fs (saveSteps fs w true t oc nc) k cl (bakOf t) = some orig := by
+    (hcl : Cleanup ((saveSteps saw w true t oc nc).take k) cl) :
+    runFault fs (saveSteps saw w true t oc nc) k cl t = some orig ∨
+    runFault fs (saveSteps saw w true t oc nc) k cl (bakOf t) = some orig := by
   simp only [saveSteps, if_true] at *
-  exact two_phase fs t (bakOf t) orig _ _ (bakOf_ne t) ht (backupSteps_writes fs t oc)
-    (writePart_writes w t nc) (openW_backupSteps fs t oc) (by rw [run_backupSteps, hoc]) k cl hcl
+  exact two_phase fs t (bakOf t) orig _ _ (bakOf_ne t) ht (backupSteps_writes saw t oc)
+    (writePart_writes w t nc) (openW_backupSteps saw t oc) (by rw [run_backupSteps, hoc]) k cl hcl
 
 /-- The same for yaml-set's restore path (`except AssertionError`): dump interrupted after the
 chunks `nc`, the temporary copy (chunks `rc`) written back, then the backup removed. -/
-theorem single_fault_keeps_original_restore (fs : FS) (t : Str) (orig : Bytes)
+theorem single_fault_keeps_original_restore (fs : FS) (saw : Bool) (t : Str) (orig : Bytes)
     (oc nc rc : List Bytes) (ht : fs t = some orig) (hoc : oc.flatten = orig) (hrc : rc.flatten = orig)
     (k : Nat) (cl : List Step)
-    (hcl : Cleanup ((restoreSteps fs true t oc nc rc).take k) cl) :
-    runFault fs (restoreSteps fs true t oc nc rc) k cl t = some orig ∨
-    runFault fs (restoreSteps fs true t oc nc rc) k cl (bakOf t) = some orig := by
+    (hcl : Cleanup ((restoreSteps saw true t oc nc rc).take k) cl) :
+    runFault fs (restoreSteps saw true t oc nc rc) k cl t = some orig ∨
+    runFault fs (restoreSteps saw true t oc nc rc) k cl (bakOf t) = some orig := by
   simp only [restoreSteps, if_true] at *
   generalize hR : ([Step.openRead t, .creatTrunc t] ++ nc.map (.append t) ++ [.close t] ++ writeSteps t rc) = R at *
   have hRw : ∀ s ∈ R, s.writes = none ∨ s.writes = some t := by
@@ -164,28 +164,28 @@ theorem single_fault_keeps_original_restore (fs : FS) (t : Str) (orig : Bytes)
     · simp [Step.writes]
     · simp [Step.writes]
     · exact writeSteps_writes _ _ _ hs
-  by_cases hk : k ≤ (backupSteps fs t oc ++ R).length
+  by_cases hk : k ≤ (backupSteps saw t oc ++ R).length
   · -- the fault precedes the final `unlink bak`
-    have hpre : (backupSteps fs t oc ++ R ++ [Step.unlink (bakOf t)]).take k = (backupSteps fs t oc ++ R).take k := by
+    have hpre : (backupSteps saw t oc ++ R ++ [Step.unlink (bakOf t)]).take k = (backupSteps saw t oc ++ R).take k := by
       rw [List.take_append]
-      have : k - (backupSteps fs t oc ++ R).length = 0 := by omega
+      have : k - (backupSteps saw t oc ++ R).length = 0 := by omega
       rw [this]; simp
     unfold runFault
     rw [hpre] at hcl ⊢
-    exact two_phase fs t (bakOf t) orig _ _ (bakOf_ne t) ht (backupSteps_writes fs t oc) hRw
-      (openW_backupSteps fs t oc) (by rw [run_backupSteps, hoc]) k cl hcl
+    exact two_phase fs t (bakOf t) orig _ _ (bakOf_ne t) ht (backupSteps_writes saw t oc) hRw
+      (openW_backupSteps saw t oc) (by rw [run_backupSteps, hoc]) k cl hcl
   · -- everything ran: the target has been restored
     left
-    have hpre : (backupSteps fs t oc ++ R ++ [Step.unlink (bakOf t)]).take k = backupSteps fs t oc ++ R ++ [Step.unlink (bakOf t)] := by
+    have hpre : (backupSteps saw t oc ++ R ++ [Step.unlink (bakOf t)]).take k = backupSteps saw t oc ++ R ++ [Step.unlink (bakOf t)] := by
       apply List.take_of_length_le
       simp only [List.length_append, List.length_cons, List.length_nil] at hk ⊢
       omega
     unfold runFault
     rw [hpre] at hcl ⊢
-    have hopen : openW (backupSteps fs t oc ++ R ++ [Step.unlink (bakOf t)]) = [] := by
+    have hopen : openW (backupSteps saw t oc ++ R ++ [Step.unlink (bakOf t)]) = [] := by
       unfold openW
       rw [openWFrom_append, openWFrom_append]
-      have h1 : openWFrom [] (backupSteps fs t oc) = [] := openW_backupSteps fs t oc
+      have h1 : openWFrom [] (backupSteps saw t oc) = [] := openW_backupSteps saw t oc
       rw [h1]; subst hR
       simp [openWFrom_append, openWFrom, openWFrom_appends, openW_writeSteps]
     rw [cleanup_nil_of_closed _ _ hcl hopen, run_nil, run_append, run_append]
@@ -200,33 +200,33 @@ private def T : Str := "f.yaml".toList
 private def fs0 : FS := fun p => if p = T then some [1, 2, 3] else if p = bakOf T then some [9] else none
 
 /-- A concrete `--backup` save over a stale `.bak`, backup copied in two chunks, new text in two. -/
-example : (saveSteps fs0 .setYaml true T [[1], [2, 3]] [[7], [8]]).length = 14 := by decide +kernel
+example : (saveSteps true .setYaml true T [[1], [2, 3]] [[7], [8]]).length = 14 := by decide +kernel
 
 /-- cut after the target has been truncated and one chunk written, the rest flushed on unwinding:
 the target is lost, the backup holds the original. -/
-example : runFault fs0 (saveSteps fs0 .setYaml true T [[1], [2, 3]] [[7], [8]]) 12 [.append T [8]] T = some [7, 8]
-    ∧ runFault fs0 (saveSteps fs0 .setYaml true T [[1], [2, 3]] [[7], [8]]) 12 [.append T [8]] (bakOf T) = some [1, 2, 3] := by
+example : runFault fs0 (saveSteps true .setYaml true T [[1], [2, 3]] [[7], [8]]) 12 [.append T [8]] T = some [7, 8]
+    ∧ runFault fs0 (saveSteps true .setYaml true T [[1], [2, 3]] [[7], [8]]) 12 [.append T [8]] (bakOf T) = some [1, 2, 3] := by
   decide +kernel
 
 /-- cut in the middle of the backup copy: the backup is incomplete, the target intact. -/
-example : runFault fs0 (saveSteps fs0 .setYaml true T [[1], [2, 3]] [[7], [8]]) 5 [] T = some [1, 2, 3]
-    ∧ runFault fs0 (saveSteps fs0 .setYaml true T [[1], [2, 3]] [[7], [8]]) 5 [] (bakOf T) = some [1] := by
+example : runFault fs0 (saveSteps true .setYaml true T [[1], [2, 3]] [[7], [8]]) 5 [] T = some [1, 2, 3]
+    ∧ runFault fs0 (saveSteps true .setYaml true T [[1], [2, 3]] [[7], [8]]) 5 [] (bakOf T) = some [1] := by
   decide +kernel
 
 /-- Without `--backup` the guarantee does not hold (the property does not claim it):
 a fault after the truncation loses the file. -/
-example : runFault fs0 (saveSteps fs0 .setJson false T [] [[7], [8]]) 1 [] T = some []
-    ∧ runFault fs0 (saveSteps fs0 .setJson false T [] [[7], [8]]) 1 [] (bakOf T) = some [9] := by
+example : runFault fs0 (saveSteps true .setJson false T [] [[7], [8]]) 1 [] T = some []
+    ∧ runFault fs0 (saveSteps true .setJson false T [] [[7], [8]]) 1 [] (bakOf T) = some [9] := by
   decide +kernel
 
 /-- What goes wrong if the backup were taken *after* the target is opened for writing (the
 mutation `copy2` after `open(…, 'w')`): a fault between the two loses the original. -/
-example : let bad := [Step.creatTrunc T] ++ backupSteps fs0 T [[]] ++ [Step.append T [7], .close T]
+example : let bad := [Step.creatTrunc T] ++ backupSteps true T [[]] ++ [Step.append T [7], .close T]
     runFault fs0 bad 1 [] T = some [] ∧ runFault fs0 bad 1 [] (bakOf T) = some [9] := by
   decide +kernel
 
 /-- a pre-write exit: `--check` fails (status 20) after the document was read. -/
-example : (runSet ⟨true, true, true, true, false, true, true, true⟩ fs0 false true T [[1, 2, 3]] [[7]] []) =
+example : (runSet ⟨true, true, true, true, false, true, true, true, true⟩ fs0 false true T [[1, 2, 3]] [[7]] []) =
     ⟨20, .check, [.openRead T]⟩ := by decide +kernel
 
 end Ypv.C17
